@@ -1,2 +1,51 @@
-(** Theorems for C11: filled in below as the proofs land. *)
-From JL Require Import Base.Json.
+(** * C11: var resolves paths through objects, arrays and strings; absent means default.
+    Statements only; proofs are in Proofs/Data.v and Proofs/DataFacts.v. *)
+From Coq Require Import List ZArith NArith.
+From JL Require Import Base.Json Base.Str Base.Monad Model.Ops Spec.Specs Spec.OpSpecs Proofs.Data Proofs.DataFacts.
+Import ListNotations.
+
+(** the model's var is the specification: key typing (null / "" / path / integer), path
+    splitting with escapes, descent by key / index / character with negative indices from the end *)
+Theorem C11_var_is_spec : forall d args, length args <= 2 -> op_var d args = var_spec d args.
+Proof. exact op_var_spec. Qed.
+Print Assumptions C11_var_is_spec.
+
+Theorem C11_split : forall p, split_with_escape p = split_spec p.
+Proof. exact split_with_escape_spec. Qed.
+Print Assumptions C11_split.
+
+Theorem C11_index : forall (l : list value) i, get_idx l i = index_spec l i.
+Proof. exact (@get_idx_spec value). Qed.
+Print Assumptions C11_index.
+
+(** a present value - even null - wins over the default; an absent one gives the default, else null *)
+Theorem C11_present_wins :
+  forall d k v dflt, lookup_spec d k = Ok (Some v) -> var_spec d [k; dflt] = Ok v /\ var_spec d [k] = Ok v.
+Proof. exact var_present_wins. Qed.
+Print Assumptions C11_present_wins.
+
+Theorem C11_absent_default :
+  forall d k dflt, lookup_spec d k = Ok None -> var_spec d [k; dflt] = Ok dflt /\ var_spec d [k] = Ok Null.
+Proof. exact var_absent. Qed.
+Print Assumptions C11_absent_default.
+
+Theorem C11_whole_data :
+  forall d dflt,
+    var_spec d [] = Ok d /\ var_spec d [Null] = Ok d /\ var_spec d [Str []] = Ok d /\
+    var_spec d [Null; dflt] = Ok d /\ var_spec d [Str []; dflt] = Ok d.
+Proof. exact var_whole. Qed.
+Print Assumptions C11_whole_data.
+
+(** frame: members of an object that the path does not name never influence the result *)
+Theorem C11_frame :
+  forall m k x seg rest, str_eqb seg k = false ->
+    resolve (seg :: rest) (Obj (obj_insert m k x)) = resolve (seg :: rest) (Obj m).
+Proof. exact resolve_frame. Qed.
+Print Assumptions C11_frame.
+
+Example C11_nonvacuous :
+  split_spec [97; 92; 46; 98; 46; 99]%N = [[97; 46; 98]; [99]]%N /\       (* a\.b.c *)
+  index_spec [1; 2; 3]%N (-1) = Some 3%N /\
+  lookup_spec (Obj [([97]%N, Null)]) (Str [97]%N) = Ok (Some Null) /\
+  lookup_spec (Str [104; 233]%N) (Num (NegInt (-1))) = Ok (Some (Str [233]%N)).
+Proof. vm_compute. repeat split. Qed.
